@@ -349,6 +349,13 @@ func SubscribeWithReplay[T any](
 		offset := bus.lastOffset
 		bus.storeMu.RUnlock()
 
+		// Nothing has been persisted by this bus yet (e.g. the append of this
+		// very event failed): there is no position to record, and saving the
+		// empty offset would move the subscription back to the start.
+		if offset == OffsetOldest {
+			return
+		}
+
 		subStore.SaveOffset(ctx, subscriptionID, offset)
 	}
 
